@@ -30,6 +30,7 @@ func rulesC10(w *World, r *Report) {
 	w.ruleDecoderInverts(r, "C10.R6 the decoder rebuilds the instant's count bit for bit", "date")
 	w.ruleDateArith(r, "C10.R3 no overflow on the declared domain")
 	w.ruleDateStructPath(r, "C10.R5 time.Time recognised inside the struct path")
+	w.ruleEveryValueStored(r, "C10.R4 a zero time (null) element keeps its position")
 }
 
 // ruleDateArith: arithmetic on the wire value in decodeDateValue, partial
